@@ -56,7 +56,8 @@ def run(res, tier, rng):
         return len(r[1].split(".")) if r[1] else 0
 
     hosts = [("com",), ("x", "com"), ("a", "x", "com"), ("b", "a", "x", "com"), ("co", "uk"), ("x", "co", "uk"), ("a", "x", "co", "uk"),
-             ("y", "com"), ("X", "com"), ("blogspot", "com"), ("s", "blogspot", "com"), ("163", "com"), ("news", "163", "com"), ("1x", "co", "uk")]
+             ("y", "com"), ("X", "com"), ("blogspot", "com"), ("s", "blogspot", "com"), ("163", "com"), ("news", "163", "com"), ("1x", "co", "uk"),
+             ("localhost",), ("api", "localhost"), ("b", "api", "localhost")]
     seg_chains = [[], ["a"], ["a", "b"], ["a", "b", "c"], ["b"], ["a", "c"]]
     universe = []
     for scheme, port in (("http", ""), ("https", ""), ("http", "8080")):
@@ -113,7 +114,7 @@ def run(res, tier, rng):
     res.evaluations += n1
     res.nontrivial = nontriv
     res.extra["universe"] = len(universe)
-    res.rule = ("universe: 3 scheme/port combinations x 11 host chains (depth <= 4, multi-label public suffixes, a private suffix, upper case) x 6 path chains (depth <= 3) x trailing slash x "
+    res.rule = ("universe: 3 scheme/port combinations x 17 host chains (depth <= 4, multi-label public suffixes, a private suffix, upper case, digit-leading labels, localhost and names under it) x 6 path chains (depth <= 3) x trailing slash x "
                 "optional query / fragment (%s); all ordered pairs (u, v), both directions (under => prefix, prefix => under), string-prefix of serialized LRUs; x suffix_aware; "
                 "model vs implementation on every url. Non-trivial = ordered pairs where v lies under u." % ("sampled in quick" if tier == "quick" else "complete"))
     res.sample(dict(u=universe[3].text, stems=stems[universe[3].text]))
